@@ -86,13 +86,16 @@ def explore(ctx):
         except TranslateError as e:
             ctx.obligation("translator " + label, False, str(e))
             tr_ok = False
-    proofs_ok = ctx.lean_props("C12") if tr_ok else False
+    case_modules = ["Ecpint.Props.C12Cases"] + ["Ecpint.Props.C12Cases.Part%d" % i for i in range(1, 10)] + ["Ecpint.Props.C12Cases.Closed"]
+    proofs_ok = ctx.lean_props("C12", extra_modules=case_modules) if tr_ok else False
     drv = build.compile_driver(b, "corr_radial.cpp", extra=["-I" + os.path.join(b.src, "external", "Faddeeva")])
     # what any generated class requests
     if classes is None:
         classes = qclasses.load(b)
     requested = {}
-    for c in classes.values():
+    for ck, c in classes.items():
+        if ck == "__terms_lean__":
+            continue
         for t in c["triplesA"] + c["triplesB"]:
             requested[t] = max(requested.get(t, 0), c["nbase"])
     trip = sorted(requested)
